@@ -632,9 +632,8 @@ func (s *sharedEntryAttributes) String() string {
 func (s *sharedEntryAttributes) addChild(ctx context.Context, e Entry) error {
 	// make sure Entry should not only hold LeafEntries
 	if s.leafVariants.Length() > 0 {
-		// An exception are presence containers
-		_, is_container := s.schema.Schema.(*sdcpb.SchemaElem_Container)
-		if !is_container && !s.schema.GetContainer().IsPresence {
+		// An exception are presence containers. Key levels carry no schema at all.
+		if container := s.schema.GetContainer(); container == nil || !container.IsPresence {
 			return fmt.Errorf("cannot add child to %s since it holds Leafs", s)
 		}
 	}
